@@ -6,6 +6,7 @@ import Hgxv.Proofs.C14Count
 import Hgxv.Proofs.C14HoadCount
 import Hgxv.Proofs.C14Pool
 import Hgxv.Proofs.C14Meta
+import Hgxv.Proofs.C14Seed
 /-! # C14 — random generators honour their structural contracts and their seeds
 
 Property theorems about the model `Hgxv/Model/C14.lean`.  Every statement is for ALL draws that satisfy the
@@ -1011,3 +1012,256 @@ example : (shuffleCoreM ⟨⟨true, [0, 1, 2, 3], [([0, 1], (2, 1)), ([1, 2], (3
 
 /-- the hypothesis "every node has an entry" matters: `add_edge` over a node the table does not know creates `{}` for it -/
 example : (addEdgeM ⟨⟨false, [0, 1], []⟩, [(0, 5)], 0, []⟩ [1, 0] 1 0).nmeta = [(0, 5), (1, 0)] := by decide
+
+/-! ## Second extension round: the `seed` option of every seeded routine, the depth of `copy()` -/
+
+/-- `add_random_edge(.., seed)` as a program over the named sources, for EVERY generator algorithm `g`, hypergraph,
+arguments, seed (0 included: `seed : Nat` is arbitrary) and ambient states `w`, `w'`: the outcome (argument afterwards and
+returned object, or the rejection) does not depend on the ambient states - same seed, same output; `np.random` is never
+touched; for admissible arguments the outcome is the pure `addRandomEdge` on the first sample of the stream that `seed`
+determines, and `random` is left in the same state; without a seed it is the same function of the ambient `random`
+state.  No hypothesis. -/
+theorem C14_add_random_seeded {σ : Type} (g : RNG σ) (h : HG) (order size : Option Nat) (inplace : Bool) (seed : Nat)
+    (w w' : World σ) :
+    (addRandomEdgeS g h order size inplace (some seed) w).1 = (addRandomEdgeS g h order size inplace (some seed) w').1 ∧
+    (addRandomEdgeS g h order size inplace (some seed) w).2.np = w.np ∧
+    (addRandomEdgeS g h order size inplace none w).2.np = w.np ∧
+    (∀ s, resolveSize order size = some s →
+      (addRandomEdgeS g h order size inplace (some seed) w).2.py
+        = (addRandomEdgeS g h order size inplace (some seed) w').2.py) ∧
+    (∀ s, resolveSize order size = some s → s ≤ h.nodes.length →
+      (addRandomEdgeS g h order size inplace (some seed) w).1
+        = addRandomEdge h order size inplace (g.sample (g.seed seed) h.nodes s).1 ∧
+      (addRandomEdgeS g h order size inplace none w).1
+        = addRandomEdge h order size inplace (g.sample w.py h.nodes s).1) ∧
+    ((addRandomEdgeS g h order size inplace (some seed) w).1 = none ↔ addRandomEdge h order size inplace [] = none) := by
+  cases hr : resolveSize order size with
+  | none => simp [addRandomEdgeS, addRandomEdge, hr]
+  | some s =>
+    by_cases hle : s ≤ h.nodes.length
+    · simp [addRandomEdgeS, addRandomEdge, seedPy, hr, hle]
+    · simp [addRandomEdgeS, addRandomEdge, seedPy, hr, hle]
+
+/-- non-vacuity, SEED 0: from the ambient states 5 and 9 the call with `seed=0` gives the same hypergraph (hyperedge
+`[0,1]`), a different one than the unseeded call from state 2 (`[2,3]`), and with the bug `if seed:` (`seedPyTruthy`) seed
+0 would leave the ambient state in charge -/
+example : (addRandomEdgeS demoRNG ⟨false, [0, 1, 2, 3], []⟩ none (some 2) false (some 0) ⟨5, 5⟩).1
+      = some ⟨⟨false, [0, 1, 2, 3], []⟩, some ⟨false, [0, 1, 2, 3], [([0, 1], (1, 0))]⟩⟩ ∧
+    (addRandomEdgeS demoRNG ⟨false, [0, 1, 2, 3], []⟩ none (some 2) false (some 0) ⟨9, 9⟩).1
+      = (addRandomEdgeS demoRNG ⟨false, [0, 1, 2, 3], []⟩ none (some 2) false (some 0) ⟨5, 5⟩).1 ∧
+    (addRandomEdgeS demoRNG ⟨false, [0, 1, 2, 3], []⟩ none (some 2) false none ⟨2, 2⟩).1
+      = some ⟨⟨false, [0, 1, 2, 3], []⟩, some ⟨false, [0, 1, 2, 3], [([2, 3], (1, 0))]⟩⟩ ∧
+    (seedPyTruthy demoRNG (some 0) ⟨2, 2⟩).py = 2 ∧ (seedPy demoRNG (some 0) ⟨2, 2⟩).py = 0 := by decide
+
+/-- `add_random_edges(.., seed)` (`while len(edges) < k` run on a generator, at most `fuel` draws): for every generator,
+hypergraph, arguments, seed (0 included), fuel and ambient states the outcome does not depend on the ambient states and
+`np.random` is not touched; the loop takes at most `fuel` draws; for admissible arguments a run that returned is the pure
+`addRandomEdges` on the draws the seed determines (the loop stopped exactly at their end), and then MORE fuel gives the
+same outcome and the same generator state (fuel only decides whether a run is followed to its end); without a seed
+the same holds with the ambient `random` state in place of `g.seed seed`.  No hypothesis. -/
+theorem C14_add_random_edges_seeded {σ : Type} (g : RNG σ) (h : HG) (k : Nat) (order size : Option Nat) (inplace : Bool)
+    (seed fuel : Nat) (w w' : World σ) :
+    (addRandomEdgesS g h k order size inplace (some seed) fuel w).1
+      = (addRandomEdgesS g h k order size inplace (some seed) fuel w').1 ∧
+    (addRandomEdgesS g h k order size inplace (some seed) fuel w).2.np = w.np ∧
+    (addRandomEdgesS g h k order size inplace none fuel w).2.np = w.np ∧
+    (∀ s, resolveSize order size = some s →
+      (addRandomEdgesS g h k order size inplace (some seed) fuel w).2.py
+        = (addRandomEdgesS g h k order size inplace (some seed) fuel w').2.py) ∧
+    (∀ s st, (drawUntil g h.nodes s k fuel [] st).1.length ≤ fuel) ∧
+    (∀ s, resolveSize order size = some s → (k = 0 ∨ s ≤ h.nodes.length) →
+      ∀ sd : Option Nat, consumedExactly k [] (drawUntil g h.nodes s k fuel [] (seedPy g sd w).py).1 = true →
+        (addRandomEdgesS g h k order size inplace sd fuel w).1
+          = addRandomEdges h k order size inplace (drawUntil g h.nodes s k fuel [] (seedPy g sd w).py).1 ∧
+        (addRandomEdgesS g h k order size inplace sd fuel w).1 ≠ none ∧
+        ∀ d, addRandomEdgesS g h k order size inplace sd (fuel + d) w
+          = addRandomEdgesS g h k order size inplace sd fuel w) := by
+  refine ⟨?_, ?_, ?_, ?_, fun s st => drawUntil_length g h.nodes s k fuel [] st, ?_⟩
+  · cases hr : resolveSize order size with
+    | none => simp [addRandomEdgesS, hr]
+    | some s => by_cases hle : k = 0 ∨ s ≤ h.nodes.length <;> (simp [addRandomEdgesS, seedPy, hr, hle]; try rfl)
+  · cases hr : resolveSize order size with
+    | none => simp [addRandomEdgesS, hr]
+    | some s => by_cases hle : k = 0 ∨ s ≤ h.nodes.length <;> (simp [addRandomEdgesS, seedPy, hr, hle]; try rfl)
+  · cases hr : resolveSize order size with
+    | none => simp [addRandomEdgesS, hr]
+    | some s => by_cases hle : k = 0 ∨ s ≤ h.nodes.length <;> (simp [addRandomEdgesS, seedPy, hr, hle]; try rfl)
+  · intro s hr
+    by_cases hle : k = 0 ∨ s ≤ h.nodes.length <;> simp [addRandomEdgesS, seedPy, hr, hle]
+  · intro s hr hle sd hc
+    refine ⟨by simp [addRandomEdgesS, hr, hle, hc], ?_, ?_⟩
+    · simp [addRandomEdgesS, addRandomEdges, hr, hle, hc]
+    · intro d
+      have e := drawUntil_mono g h.nodes s k fuel [] (seedPy g sd w).py hc d
+      simp only [addRandomEdgesS, hr, hle, if_true, e]
+
+/-- non-vacuity: `k = 2` pairs over 4 nodes with seed 0 from two ambient states: three draws (the generator repeats
+nothing here: states 0, 1 give `[0,1]`, `[1,2]`), the loop returned, fuel 5 or 50 makes no difference -/
+example : (addRandomEdgesS demoRNG ⟨false, [0, 1, 2, 3], []⟩ 2 none (some 2) true (some 0) 5 ⟨7, 7⟩).1
+      = some ⟨⟨false, [0, 1, 2, 3], [([0, 1], (1, 0)), ([1, 2], (1, 0))]⟩, none⟩ ∧
+    (addRandomEdgesS demoRNG ⟨false, [0, 1, 2, 3], []⟩ 2 none (some 2) true (some 0) 50 ⟨7, 7⟩).1
+      = (addRandomEdgesS demoRNG ⟨false, [0, 1, 2, 3], []⟩ 2 none (some 2) true (some 0) 5 ⟨7, 7⟩).1 ∧
+    (addRandomEdgesS demoRNG ⟨false, [0, 1, 2, 3], []⟩ 2 none (some 2) true (some 0) 50 ⟨7, 7⟩).2.py = 2 ∧
+    (addRandomEdgesS demoRNG ⟨false, [0, 1, 2, 3], []⟩ 2 none (some 2) true (some 0) 1 ⟨7, 7⟩).1 = none := by decide
+
+/-- `random_shuffle(.., seed)`: the routine seeds **np.random** and draws the rewired positions from **random**.  For every
+generator, choice routine, hypergraph, arguments, seed (0 included) and ambient states: the outcome does not depend on
+the ambient state of `np.random`; with equal ambient `random` states the outcomes AND the states left behind are equal
+("same seed and same `random` state, same output"); the outcome is the pure `randomShuffle` on the positions
+`random.sample(range(m), int(p*m))` from the ambient `random` state and the choices the seeded `np.random` stream gives
+for the pool and weights of these positions; the seeded program rejects exactly what the pure routine rejects.  (That the
+positions come from the UNSEEDED source is the negative witness after `C14_unseeded`.)  No hypothesis. -/
+theorem C14_shuffle_seeded {σ : Type} (g : RNG σ) (c : Choice σ) (h : HG) (order size : Option Nat) (inplace : Bool)
+    (pn : Int) (pd : Nat) (preserve : Bool) (seed : Nat) (w w' : World σ) (hpy : w.py = w'.py) :
+    (randomShuffleS g c h order size inplace pn pd preserve (some seed) w).1
+      = (randomShuffleS g c h order size inplace pn pd preserve (some seed) w').1 ∧
+    (∀ s, resolveSize order size = some s → 0 ≤ pn ∧ pn ≤ pd →
+      randomShuffleS g c h order size inplace pn pd preserve (some seed) w
+        = randomShuffleS g c h order size inplace pn pd preserve (some seed) w' ∧
+      ∀ sd : Option Nat,
+        (randomShuffleS g c h order size inplace pn pd preserve sd w).1
+          = randomShuffle h order size inplace pn pd
+              (g.sample w.py (List.range (edgesOfSize h s).length)
+                (numToRandomize pn.toNat pd (edgesOfSize h s).length)).1
+              (drawChoices c
+                (pool (edgesOfSize h s) (g.sample w.py (List.range (edgesOfSize h s).length)
+                  (numToRandomize pn.toNat pd (edgesOfSize h s).length)).1)
+                (poolWeights (edgesOfSize h s) (g.sample w.py (List.range (edgesOfSize h s).length)
+                  (numToRandomize pn.toNat pd (edgesOfSize h s).length)).1 preserve) s
+                (g.sample w.py (List.range (edgesOfSize h s).length)
+                  (numToRandomize pn.toNat pd (edgesOfSize h s).length)).1
+                (edgesOfSize h s) 0 (seedNp g sd w).np).1) ∧
+    ((randomShuffleS g c h order size inplace pn pd preserve (some seed) w).1 = none
+      ↔ randomShuffle h order size inplace pn pd [] [] = none) := by
+  cases hr : resolveSize order size with
+  | none => simp [randomShuffleS, randomShuffle, hr]
+  | some s =>
+    by_cases hp : 0 ≤ pn ∧ pn ≤ pd
+    · refine ⟨by simp [randomShuffleS, seedNp, hr, hp, hpy], ?_, by simp [randomShuffleS, randomShuffle, hr, hp]⟩
+      intro s' hs' _
+      cases hs'
+      refine ⟨by simp [randomShuffleS, seedNp, hr, hp, hpy], ?_⟩
+      intro sd
+      cases sd <;> simp [randomShuffleS, seedNp, hr, hp]
+    · refine ⟨by simp [randomShuffleS, hr, hp], ?_, by simp [randomShuffleS, randomShuffle, hr, hp]⟩
+      intro s' _ hp'
+      exact absurd hp' hp
+
+/-- `seed=0` is a seed: for every generator and ambient state, `random.seed(0)` / `np.random.seed(0)` is executed (the state
+is `g.seed 0`, whatever it was), in `random_hypergraph`, `random_uniform_hypergraph`, `add_random_edge(s)` and
+`random_shuffle` alike; the program with the test `if seed:` (`seedPyTruthy`) differs from the code exactly at seed 0. -/
+theorem C14_seed_zero {σ : Type} (g : RNG σ) (w : World σ) :
+    (seedPy g (some 0) w).py = g.seed 0 ∧ (seedPy g (some 0) w).np = w.np ∧
+    (seedNp g (some 0) w).np = g.seed 0 ∧ (seedNp g (some 0) w).py = w.py ∧
+    seedPy g none w = w ∧ seedNp g none w = w ∧
+    (∀ s : Nat, s ≠ 0 → seedPyTruthy g (some s) w = seedPy g (some s) w) ∧ seedPyTruthy g (some 0) w = w ∧
+    (∀ n req w', (randomHypergraphM g n req (some 0) w).1 = (randomHypergraphM g n req (some 0) w').1) ∧
+    (∀ h order size inplace w',
+      (addRandomEdgeS g h order size inplace (some 0) w).1 = (addRandomEdgeS g h order size inplace (some 0) w').1) ∧
+    (∀ h k order size inplace fuel w', (addRandomEdgesS g h k order size inplace (some 0) fuel w).1
+      = (addRandomEdgesS g h k order size inplace (some 0) fuel w').1) := by
+  refine ⟨rfl, rfl, rfl, rfl, rfl, rfl, ?_, rfl, ?_, ?_, ?_⟩
+  · intro s hs
+    cases s with
+    | zero => exact absurd rfl hs
+    | succ s => rfl
+  · intro n req w'; exact (C14_seeded g n req 0 w w').1
+  · intro h order size inplace w'; exact (C14_add_random_seeded g h order size inplace 0 w w').1
+  · intro h k order size inplace fuel w'; exact (C14_add_random_edges_seeded g h k order size inplace 0 fuel w w').1
+
+example : (seedPy demoRNG (some 0) ⟨4, 6⟩).py = 0 ∧ (seedPy demoRNG (some 0) ⟨4, 6⟩).np = 6 ∧
+    (seedNp demoRNG (some 0) ⟨4, 6⟩).py = 4 ∧ (seedNp demoRNG (some 0) ⟨4, 6⟩).np = 0 := by decide
+
+/-- non-vacuity: two pairs and a triple, `p = 1/2` (one of the two pairs is rewired), seed 0, ambient `random` state 1
+(position 1 = `[2,3]` is rewired: pool `[2,3]`, choice from state 0 = `[2,3]`): equal outcomes from the `np.random` states 4
+and 8; the kept pair keeps weight 2 and metadata 1 -/
+example : (randomShuffleS demoRNG demoChoice ⟨true, [0, 1, 2, 3], [([0, 1], (2, 1)), ([2, 3], (3, 2)), ([0, 1, 2], (4, 3))]⟩
+      none (some 2) true 1 2 false (some 0) ⟨1, 4⟩).1
+      = some ⟨⟨true, [0, 1, 2, 3], [([0, 1, 2], (4, 3)), ([0, 1], (2, 1)), ([2, 3], (1, 0))]⟩, none⟩ ∧
+    (randomShuffleS demoRNG demoChoice ⟨true, [0, 1, 2, 3], [([0, 1], (2, 1)), ([2, 3], (3, 2)), ([0, 1, 2], (4, 3))]⟩
+      none (some 2) true 1 2 false (some 0) ⟨1, 8⟩).1
+      = (randomShuffleS demoRNG demoChoice ⟨true, [0, 1, 2, 3], [([0, 1], (2, 1)), ([2, 3], (3, 2)), ([0, 1, 2], (4, 3))]⟩
+      none (some 2) true 1 2 false (some 0) ⟨1, 4⟩).1 := by decide
+
+/-- how deep `copy()` is, as a statement about OBJECTS WITH ALL THEIR TABLES (`HeapM`: object id -> content with weights and
+hyperedge metadata, node metadata, hypergraph metadata, incidence metadata).  Hypothesis: the argument is a live object
+`a` holding `m`.  For EVERY result `m'` a routine computes (so for `add_random_edge`, `add_random_edges`, `random_shuffle`,
+`random_shuffle_all_orders` alike - `C14_metadata_intact` says what `m'` is): with `inplace=False` the result is handed back
+in an object that did not exist before and is not the argument; the argument still holds `m` - content, weights and all
+three metadata tables; every other object is untouched; and after ANY sequence of later writes into the returned object
+(`pokes`: whatever the caller does to it - nothing of the argument is shared with it) the argument and every other old
+object still hold what they held.  With `inplace=True` the argument holds `m'`. -/
+theorem C14_copy_depth (H : HeapM) (a : Nat) (m m' : HGM) (ha : AL.get? H a = some m) :
+    (∃ r, (finishObjM H a false m').2 = some r ∧ (finishObjAllM H a false m').2 = some r ∧
+      finishObjAllM H a false m' = finishObjM H a false m' ∧
+      r ≠ a ∧ AL.get? H r = none ∧
+      AL.get? (finishObjM H a false m').1 r = some m' ∧
+      (∀ b, b ≠ r → AL.get? (finishObjM H a false m').1 b = AL.get? H b) ∧
+      (∀ pokes : List HGM, ∀ b, b ≠ r → AL.get? (pokes.foldl (fun G x => poke G r x) (finishObjM H a false m').1) b = AL.get? H b) ∧
+      (∀ pokes : List HGM, ∃ m₁, AL.get? (pokes.foldl (fun G x => poke G r x) (finishObjM H a false m').1) a = some m₁ ∧
+        m₁.core = m.core ∧ m₁.nmeta = m.nmeta ∧ m₁.hmeta = m.hmeta ∧ m₁.imeta = m.imeta)) ∧
+    (finishObjM H a true m').2 = none ∧ AL.get? (finishObjM H a true m').1 a = some m' ∧
+    (finishObjAllM H a true m').2 = some a ∧ AL.get? (finishObjAllM H a true m').1 a = some m' := by
+  have hne : freshIdM H ≠ a := by
+    intro e
+    have := get?_freshIdM H
+    rw [e, ha] at this; cases this
+  have hpk : ∀ (pokes : List HGM) (H' : HeapM) (b : Nat), b ≠ freshIdM H →
+      AL.get? (pokes.foldl (fun G x => poke G (freshIdM H) x) H') b = AL.get? H' b := by
+    intro pokes
+    induction pokes with
+    | nil => intro H' b _; rfl
+    | cons x xs ih =>
+      intro H' b hb
+      rw [List.foldl_cons, ih _ b hb]
+      exact AL.get?_set_ne _ _ _ _ (Ne.symm hb)
+  have hold : ∀ b, b ≠ freshIdM H → AL.get? (finishObjM H a false m').1 b = AL.get? H b := by
+    intro b hb
+    simp only [finishObjM, Bool.false_eq_true, if_false]
+    exact AL.get?_set_ne _ _ _ _ (Ne.symm hb)
+  refine ⟨⟨freshIdM H, by simp [finishObjM], by simp [finishObjAllM], by simp [finishObjM, finishObjAllM], hne,
+    get?_freshIdM H, by simp [finishObjM], hold, ?_, ?_⟩, by simp [finishObjM], by simp [finishObjM],
+    by simp [finishObjAllM], by simp [finishObjAllM]⟩
+  · intro pokes b hb
+    rw [hpk pokes _ b hb, hold b hb]
+  · intro pokes
+    refine ⟨m, ?_, rfl, rfl, rfl, rfl⟩
+    rw [hpk pokes _ a (Ne.symm hne), hold a (Ne.symm hne), ha]
+
+/-- non-vacuity: objects 3 (with node metadata, hypergraph metadata 9, an incidence entry) and 7; the call on 3 with
+`inplace=False` returns the new object 8; two later writes into 8 leave object 3 as it was -/
+example : (finishObjM [(3, ⟨⟨false, [0, 1], [([0, 1], (1, 0))]⟩, [(0, 5), (1, 0)], 9, [(([0, 1], 1), 4)]⟩), (7, {})] 3 false {}).2
+      = some 8 ∧
+    AL.get? ([({} : HGM), ⟨⟨true, [], []⟩, [], 1, []⟩].foldl (fun G x => poke G 8 x)
+      (finishObjM [(3, ⟨⟨false, [0, 1], [([0, 1], (1, 0))]⟩, [(0, 5), (1, 0)], 9, [(([0, 1], 1), 4)]⟩), (7, {})] 3 false {}).1) 3
+      = some ⟨⟨false, [0, 1], [([0, 1], (1, 0))]⟩, [(0, 5), (1, 0)], 9, [(([0, 1], 1), 4)]⟩ := by decide
+
+/-- TERMINATION BOUND of `add_random_edges` on a generator.  For every generator, state, hypergraph, admissible
+arguments, seed (or none) and bound `fuel`: the loop's draws are a prefix of the generator's stream (`drawN`: the first
+`fuel` samples) - exactly as many as the pure loop takes (`collectUsed`); and if the first `fuel` samples of the stream
+hold `k` distinct hyperedges the call returns within `fuel` draws, with the first `k` distinct hyperedges of the stream,
+and every larger bound gives the same.  (Hypothesis = "the draw list contains enough distinct proposals"; for requests
+above `C(n, size)` no stream has that, `C14_saturation`.) -/
+theorem C14_add_random_edges_terminates {σ : Type} (g : RNG σ) (h : HG) (k : Nat) (order size : Option Nat)
+    (inplace : Bool) (sd : Option Nat) (fuel s : Nat) (w : World σ) (hr : resolveSize order size = some s)
+    (hle : k = 0 ∨ s ≤ h.nodes.length) :
+    (drawUntil g h.nodes s k fuel [] (seedPy g sd w).py).1
+      = (drawN g h.nodes s fuel (seedPy g sd w).py).1.take
+          (collectUsed k [] (drawN g h.nodes s fuel (seedPy g sd w).py).1) ∧
+    (k ≤ (dedup ((drawN g h.nodes s fuel (seedPy g sd w).py).1.map sortE)).length →
+      (addRandomEdgesS g h k order size inplace sd fuel w).1
+        = some (finish inplace h (addEdges h ((dedup ((drawN g h.nodes s fuel (seedPy g sd w).py).1.map sortE)).take k))) ∧
+      ∀ d, addRandomEdgesS g h k order size inplace sd (fuel + d) w = addRandomEdgesS g h k order size inplace sd fuel w) := by
+  have e := drawUntil_eq g h.nodes s k fuel [] (seedPy g sd w).py
+  refine ⟨e, ?_⟩
+  intro hk
+  have hc : consumedExactly k [] (drawUntil g h.nodes s k fuel [] (seedPy g sd w).py).1 = true := by
+    rw [e]; exact consumed_prefix k _ [] hk
+  have h3 := (C14_add_random_edges_seeded g h k order size inplace 0 fuel w w).2.2.2.2.2 s hr hle sd hc
+  refine ⟨?_, h3.2.2⟩
+  rw [h3.1, e, addRandomEdges, hr]
+  simp only [hle, if_true]
+  rw [(C14_rejection_loop k _).2.2.1, (C14_rejection_loop k _).1]
+
+/-- non-vacuity: the first 3 samples of the stream from seed 0 hold 2 distinct pairs -/
+example : 2 ≤ (dedup ((drawN demoRNG [0, 1, 2, 3] 2 3 0).1.map sortE)).length := by decide
